@@ -39,6 +39,10 @@ SITES = [
     ('run_ignore_exit', MULTI, ['run -ignore-exit-code % {S}'], 'instr'),
     ('stdin_program', MULTI, ['run % fast{N}', '  -stdin -stdout-from % {S}'], 'stdin'),
     ('file_stdout_from', MULTI, ['file f{N}.txt = -stdout-from % {S}'], 'text_source'),
+    # the program fills a file of a directory that the same instruction creates (a files-source)
+    ('dir_with_file_from_program', MULTI, ['dir nd{N} = {', '  file a.txt = -stdout-from % {S}', '}'], 'text_source'),
+    ('dir_with_nested_dir_file_from_program', MULTI, ['dir nd{N} = {', '  dir sub = {', '    file a.txt = -stdout-from % {S}', '  }', '}'],
+     'text_source'),
     ('file_stderr_from_ignore', MULTI, ['file f{N}.txt = -stderr-from -ignore-exit-code % {S}'], 'text_source'),
     ('file_transformed_by_run', MULTI, ['file f{N}.txt = "abc" -transformed-by run % {S}'], 'transformer'),
     ('file_transformed_by_run_ignore_exit', MULTI, ['file f{N}.txt = "abc" -transformed-by run -ignore-exit-code % {S}'],
